@@ -910,6 +910,8 @@ class SetIndex(BaseSetIndexSortValues):
                 self, parent, dependents, additional_columns=addition_columns
             )
             columns = _convert_to_list(columns)
+            # dependents that rename columns report names that do not exist here
+            columns = [col for col in self.frame.columns if col in columns]
             if self.frame.columns == columns:
                 return
             return type(parent)(
